@@ -291,6 +291,9 @@ class Normalizer:
             if lib == "numpy.vdot" and len(node.args) == 2 and not node.keywords:
                 # vdot(A, B) == sum(conj(A) * B) == Tr(Dagger(A) @ B)   (vdot conjugates its FIRST argument)
                 return ("call", "numpy.trace", (self._matmul([self._dag(self.n(node.args[0])), self.n(node.args[1])]),), ())
+            if lib == "numpy.outer" and len(node.args) == 2 and not node.keywords:
+                # outer(a, b) == a b^T for (flattened) vectors: outer(v, conj(w)) is |v><w|
+                return self._matmul([self.n(node.args[0]), self._T(self.n(node.args[1]))])
             if lib == "scipy.linalg.inv" and len(node.args) == 1 and not node.keywords:
                 return ("call", "numpy.linalg.inv", (self.n(node.args[0]),), ())
             if lib == "numpy.real" and len(node.args) == 1:
